@@ -851,6 +851,10 @@ def main(tier):
         rule="one state = one epoch read of one configuration (dataset class, wrapping mode, field set, N, batch size, loader, forced permutation | baseline evaluation batch size); transitions = batches read / baseline policy calls; distinct = states with N >= 2",
     )
     seed = seed_from_env()
+    # import the library once in the parent so that the forked workers share it
+    import rl4co.envs  # noqa: F401
+    import rl4co.models.rl  # noqa: F401
+
     calls = seam_selftest()
     nmax = 4 if tier == "quick" else 5
     rep.assumptions = [
@@ -858,6 +862,7 @@ def main(tier):
         "num_workers=0 only; CPU only; instance sets are value-tagged TensorDicts (flat keys, no nested TensorDicts) with N <= " + str(nmax),
         "the baseline policy is a marker module (reward = tag, or env reward of the fixed tour 0,1,2 on right triangles of distinct size); 'reward on instance i' is defined as that policy on instance i alone (batch of one, greedy)",
         "REINFORCE path: on_train_epoch_end() is called with a stub trainer (max_epochs=3, current_epoch=0) instead of a running lightning Trainer",
+        "second wrapping (wrap+rewrap units): all permutations up to N=3, above that reverse / rotation / recorded / 3-epoch runs only",
         "not judged: aliasing side effects on the ORIGINAL (inner) dataset / TensorDict after wrapping (ExtraKeyDataset writes the extra key into the inner dataset's dicts; TensorDictDatasetFastGeneration.add_key edits in place)",
     ]
     items = build_items(tier, seed)
